@@ -406,7 +406,10 @@ fn gen(a: &Args) {
             o.op(&format!("point {} {}", b(c), k));
             o.op(&format!("prange {} {}", b(c), k));
         }
-        o.op(&format!("mono {} {} {}", b(0.0), b(f64::from_bits(1)), k));
+        // a containment is a ratio of two counts below 2^64: 2^-64 is the scale of the least non-zero one.
+        // (Below 2^(-54k) the expression 1 − (1 − x) returns exactly 0: see corpus/C19/tiny.ops.)
+        o.op(&format!("mono {} {} {}", b(0.0), b(2f64.powi(-64)), k));
+        o.op(&format!("monole {} {} {}", b(0.0), b(f64::from_bits(1)), k));
         o.op(&format!("mono {} {} {}", b(1.0 - 1e-9), b(1.0), k));
     }
     let n = if thorough { 60_000 } else { 4_000 };
@@ -428,7 +431,7 @@ fn gen(a: &Args) {
         o.op(&format!("prange {} {}", b(c), k));
         // pairs separated by a relative 2^-30 (well above the rounding of pow): strict order
         let c2 = c * (1.0 + 2f64.powi(-30));
-        if c2 < 1.0 {
+        if c2 < 1.0 && c >= 2f64.powi(-64) {
             o.op(&format!("mono {} {} {}", b(c), b(c2), k));
         }
         // adjacent doubles: never in the wrong order
